@@ -7,7 +7,9 @@
 (*   frame  - one frame: draws and the notifications issued in it,          *)
 (*   exit / noframe / noexit / nosync / panic - run-level observations,     *)
 (* and this spec steps the Routing oracle (Routing!StepWhy / FrameWhy)      *)
-(* through them.                                                            *)
+(* through them.  The reset event also names the widgets that draw a        *)
+(* surface tagged with themselves inside their own surface (wraps): the     *)
+(* oracle knows widgets only, it is context for the rejection signatures.   *)
 EXTENDS Routing, TLC, Json, IOUtils
 
 Trace == ndJsonDeserialize(IOEnv.TRACE)
@@ -15,7 +17,7 @@ Trace == ndJsonDeserialize(IOEnv.TRACE)
 VARIABLES l, T, st, failed
 vars == <<l, T, st, failed>>
 
-NoTree == [n |-> 1, pars |-> <<<<0>>>>, caps |-> <<FALSE>>, lays |-> <<<<[x |-> 0, y |-> 0, w |-> 0, h |-> 0, z |-> 0, hid |-> FALSE]>>>>]
+NoTree == [n |-> 1, pars |-> <<<<0>>>>, caps |-> <<FALSE>>, wraps |-> <<FALSE>>, lays |-> <<<<[x |-> 0, y |-> 0, w |-> 0, h |-> 0, z |-> 0, hid |-> FALSE]>>>>]
 
 Init == l = 1 /\ T = NoTree /\ st = St0 /\ failed = FALSE
 
@@ -30,7 +32,7 @@ Why(e) ==
     [] OTHER            -> "unknown-event"
 
 Apply(e) ==
-  CASE e.ev = "step"  -> StepNext(st, e)
+  CASE e.ev = "step"  -> StepNext(T, st, e)
     [] e.ev = "frame" -> FrameNext(T, st, e)
     [] e.ev = "exit"  -> [st EXCEPT !.over = TRUE]
     [] OTHER          -> st
@@ -49,11 +51,16 @@ Expect(e) ==
   CASE e.ev = "step" -> [chain |-> StepChain(T, st, e), focus |-> st.focus, hover |-> st.hover,
                          route |-> IF StepChain(T, st, e) = <<>> \/ Undrawn(T, st, e) THEN <<>> ELSE Route(T, StepChain(T, st, e)),
                          moved |-> st.moved, tfin |-> st.tfin, undrawn |-> Undrawn(T, st, e),
-                         relaid |-> st.relaid,
+                         relaid |-> st.relaid, qtick |-> st.qtick,
+                         \* context for signatures: the focus moved while the event was being routed;
+                         \* a widget on the route draws a surface of its own inside its surface
+                         held |-> Held(st, e) # {st.focus},
+                         selfnest |-> \E w \in Range(StepChain(T, st, e)) : T.wraps[w],
                          overlap |-> e.in.t = "mouse" /\ Overlap(st.lay, <<e.in.x, e.in.y>>)]
     [] e.ev = "frame" -> [focus |-> st.focus, hover |-> st.hover, ptr |-> st.ptr, redraw |-> st.redraw, refresh |-> st.refresh,
                           moved |-> st.moved, tfin |-> st.tfin, overlap |-> Overlap(e.lay, st.ptr),
                           relaid |-> st.relaid \/ T.pars[e.lay] # T.pars[st.lay],
+                          selfnest |-> st.ptr # <<>> /\ \E w \in Range(HitChain(At(T, e.lay), T.lays[e.lay], st.ptr[1], st.ptr[2])) : T.wraps[w],
                           undrawn |-> ~Present(At(T, e.lay), T.lays[e.lay], st.focus)]
     [] OTHER -> [focus |-> st.focus]
 
@@ -62,7 +69,7 @@ Next ==
   /\ l' = l + 1
   /\ LET e == Trace[l] IN
      IF e.ev = "reset" THEN
-        /\ T' = [n |-> e.n, pars |-> e.pars, caps |-> e.caps, lays |-> e.lays]
+        /\ T' = [n |-> e.n, pars |-> e.pars, caps |-> e.caps, wraps |-> e.wraps, lays |-> e.lays]
         /\ st' = St0
         /\ failed' = FALSE
      ELSE IF failed THEN UNCHANGED <<T, st, failed>>
